@@ -36,18 +36,20 @@ def main():
         os.makedirs(f"{wt}/SEED", exist_ok=True)
         shutil.copy(f"{src}/demo.py", f"{wt}/SEED/demo.py")
         env = dict(os.environ, PYTHONPATH=wt, PYTHONDONTWRITEBYTECODE="1")
-        rc0, o0 = sh("/venv/bin/python SEED/demo.py", cwd=wt, env=env, timeout=900)
+        fast = "--checks-only" in sys.argv
+        rc0, o0 = (0, "") if fast else sh("/venv/bin/python SEED/demo.py", cwd=wt, env=env, timeout=900)
         out["demo_unpatched_rc"] = rc0
         rca, oa = sh(f"git apply --exclude='SEED/*' {src}/patch.diff", cwd=wt)
         out["apply_rc"] = rca
         if rca:
             out["apply_out"] = oa[-500:]
-        rct, ot = sh("/venv/bin/python -m pytest -q -p no:cacheprovider --timeout=900 -q 2>&1 | tail -3", cwd=wt, env=dict(os.environ, PYTHONDONTWRITEBYTECODE="1"))
+        rct, ot = (0, "") if fast else sh("/venv/bin/python -m pytest -q -p no:cacheprovider --timeout=900 -q 2>&1 | tail -3", cwd=wt, env=dict(os.environ, PYTHONDONTWRITEBYTECODE="1"))
         out["tests_tail"] = ot.strip().splitlines()[-1:] if ot.strip() else []
         out["tests_failed"] = bool(re.search(r"\bfailed\b|\berror", ot))
-        rc1, o1 = sh("/venv/bin/python SEED/demo.py", cwd=wt, env=env, timeout=900)
+        rc1, o1 = (1, "") if fast else sh("/venv/bin/python SEED/demo.py", cwd=wt, env=env, timeout=900)
         out["demo_patched_rc"] = rc1
         out["demo_patched_tail"] = o1.strip().splitlines()[-2:]
+        shutil.rmtree(f"{wt}/SEED", ignore_errors=True)  # the demo is not part of the change
         caught = {}
         errors = {}
         for i in range(1, 20):
